@@ -266,11 +266,27 @@ def shard_framing(sh: Shard, seed, n):
 
     fams = handler_families()
     r = rng("C04f", seed)
+    # one long-lived receiving handler as hosted by a socket / the simulator: few identifier
+    # pairs and few addresses, so the same identifiers arrive from different addresses
+    dispatched = []
+
+    class _Sock:
+        def dispatch_recevied_data(self, content, parms):
+            dispatched.append((content, parms))
+
+    rx_long = D.GeckoPacketProtocolHandler()
+    rx_long._socket = _Sock()
+    id_pool = [(gen_id(r, r.choice(["ios", "and"])), gen_id(r, "spa")) for _ in range(3)]
+    addr_pool = [("10.9.0.%d" % r.randrange(1, 255), r.randrange(1024, 65536)) for _ in range(3)] + [("10.9.0.7", 10022), ("10.9.0.7", 51000)]
     for i in range(n):
         sh.evaluations += 1
-        cli, spa = gen_id(r, r.choice(["ios", "and"])), gen_id(r, "spa")
+        if r.random() < 0.6:  # runs of frames with the same identifiers, from varying addresses
+            cli, spa = r.choice(id_pool)
+            sender = r.choice(addr_pool)
+        else:
+            cli, spa = gen_id(r, r.choice(["ios", "and"])), gen_id(r, "spa")
+            sender = (f"10.0.{r.randrange(256)}.{r.randrange(1, 255)}", r.choice([10022, r.randrange(1024, 65536)]))
         payload = gen_payload(r)
-        sender = (f"10.0.{r.randrange(256)}.{r.randrange(1, 255)}", r.choice([10022, r.randrange(1024, 65536)]))
         # the spa sends `payload` to the client
         tx = D.GeckoPacketProtocolHandler(content=payload, parms=("x", 0, cli, spa))
         wire = tx.send_bytes
@@ -293,6 +309,21 @@ def shard_framing(sh: Shard, seed, n):
             sh.violation("C04:frame:misframed", f"frame decodes to parms {rx.parms} content {rx.packet_content!r:.60}, built from src {spa} dst {cli} payload {payload!r:.60}", w)
             continue
         sh.count("frames_ok")
+        # the same frame on the long-lived handler: parms (and what it dispatches) follow THIS sender
+        del dispatched[:]
+        try:
+            rx_long.handle(wire, sender)
+            want = (sender[0], sender[1], spa, cli)
+            dp = [tuple(p) for c, p in dispatched]
+            if tuple(rx_long.parms) != want or dp != [want] or dispatched[0][0] != payload:
+                sh.violation("C04:frame-reused:parms", f"long-lived packet handler: frame from {sender} src {spa} dst {cli} gives parms {rx_long.parms}, dispatches {dp}; a reply would go to {tuple(rx_long.parms)[:2]}", w)
+            else:
+                sh.count("frames_on_long_lived_handler_ok")
+            lr = D.GeckoPingProtocolHandler.response(parms=rx_long.parms)
+            if lr.send_bytes != frame(cli, spa, b"APING\x00") or tuple(lr.parms[0:2]) != sender:
+                sh.violation("C04:reply-addressing:reused", f"reply built on a long-lived handler to {sender} is addressed to {tuple(lr.parms[0:2])}", w)
+        except Exception as e:
+            sh.violation("C04:frame-reused:raise", f"long-lived packet handler raised {e!r}", dict(w, exc=describe_exc(e)))
         # (d) a reply built from the decoded parms is addressed back with ids swapped
         reply = D.GeckoPingProtocolHandler.response(parms=rx.parms)
         rwire = reply.send_bytes
